@@ -1,2 +1,2 @@
-import NipyVerif.Model.C18
-def main : IO Unit := NipyVerif.driverLoop NipyVerif.C18.run
+import NipyVerif.Model.C18B
+def main : IO Unit := NipyVerif.driverLoop NipyVerif.C18.runB
